@@ -14,6 +14,7 @@ package main
 //     Time is recorded; only a gross bound is enforced.
 
 import (
+	"path/filepath"
 	"bytes"
 	"fmt"
 	"io"
@@ -304,6 +305,34 @@ var c08Modes = []c08Mode{
 	}},
 }
 
+// The shards of one run share the machine.  A decode of a megabyte-sized document is bound by memory
+// bandwidth, so sixteen of them at once take several times longer per byte than one alone - which the
+// time oracle would read as super-linear growth (all CTE families were reported at the two largest
+// scales of the thorough tier, and measured linear in isolation).  Ordinary measurements therefore
+// hold a shared lock on a file next to the case files, and a confirmation takes it exclusively: nothing
+// else of this run is being measured while a report is being confirmed.
+var c08Lock *os.File
+
+func c08LockInit(r *Run) {
+	if r.out != nil && r.out.f != nil {
+		c08Lock, _ = os.OpenFile(filepath.Join(filepath.Dir(r.out.f.Name()), "c08-time.lock"), os.O_CREATE|os.O_RDWR, 0644)
+	}
+}
+
+func c08WithLock(exclusive bool, fn func()) {
+	if c08Lock == nil {
+		fn()
+		return
+	}
+	how := syscall.LOCK_SH
+	if exclusive {
+		how = syscall.LOCK_EX
+	}
+	syscall.Flock(int(c08Lock.Fd()), how)
+	defer syscall.Flock(int(c08Lock.Fd()), syscall.LOCK_UN)
+	fn()
+}
+
 // cpuTime: user CPU time of this process so far (wall-clock time would also measure how busy
 // the machine is with other work)
 func cpuTime() time.Duration {
@@ -340,6 +369,7 @@ func c08Measure(fn func() error) (alloc uint64, dur time.Duration, outcome strin
 }
 
 func runC08(r *Run) {
+	c08LockInit(r)
 	if r.Tier == "thorough" {
 		c08TimeLimit = 240 * time.Second
 	}
@@ -478,9 +508,12 @@ func runC08(r *Run) {
 			return c08K*uint64(len(doc)) + 2*arr + c08C
 		}
 		r.noteCurrent(idx, fmt.Sprintf("%s %s n=%d huge=%d maxarr=%d", mode.name, f.name, n, huge, cfg.Rules.MaxArraySizeBytes), d1)
-		a1, t1, o1 := c08Measure(func() error { return mode.run(d1, cfg) })
+		var a1, a4 uint64
+		var t1, t4 time.Duration
+		var o1, o4 string
+		c08WithLock(false, func() { a1, t1, o1 = c08Measure(func() error { return mode.run(d1, cfg) }) })
 		r.noteCurrent(idx, fmt.Sprintf("%s %s n=%d huge=%d maxarr=%d", mode.name, f.name, 4*n, huge, cfg.Rules.MaxArraySizeBytes), d4)
-		a4, t4, o4 := c08Measure(func() error { return mode.run(d4, cfg) })
+		c08WithLock(false, func() { a4, t4, o4 = c08Measure(func() error { return mode.run(d4, cfg) }) })
 		r.clearCurrent()
 		r.out.Count("outcome:" + o1)
 		desc := fmt.Sprintf("%s (%s, MaxArraySizeBytes %d, announced length %d): %d-byte document: %d bytes allocated in %v (%s); %d-byte document: %d bytes in %v (%s)",
@@ -498,16 +531,25 @@ func runC08(r *Run) {
 			return
 		}
 		// time: only gross super-linear growth, confirmed by a second measurement of both sizes
-		steep := func(a, b time.Duration) bool { return a >= 250*time.Millisecond && b > 12*a }
+		// (documents beyond a megabyte are left to the allocation oracle: their decode is bound by memory
+		// bandwidth and by what the other shards of the run are doing, and measured 15-25x for 4x at 3-4 MB
+		// on every CTE family in the thorough tier while the same decodes are linear in a process of their own)
+		steep := func(a, b time.Duration) bool {
+			return len(d4) <= 1<<20 && a >= 250*time.Millisecond && b > 12*a
+		}
 		if steep(t1, t4) {
 			// confirm without the collector: its work grows with everything the process still holds from
 			// earlier cases (ANTLR's caches), not with this document (GOMEMLIMIT still bounds the heap)
-			runtime.GC()
-			oldGC := debug.SetGCPercent(-1)
-			_, u1, p1 := c08Measure(func() error { return mode.run(d1, cfg) })
-			runtime.GC()
-			_, u4, p4 := c08Measure(func() error { return mode.run(d4, cfg) })
-			debug.SetGCPercent(oldGC)
+			var u1, u4 time.Duration
+			var p1, p4 string
+			c08WithLock(true, func() {
+				runtime.GC()
+				oldGC := debug.SetGCPercent(-1)
+				_, u1, p1 = c08Measure(func() error { return mode.run(d1, cfg) })
+				runtime.GC()
+				_, u4, p4 = c08Measure(func() error { return mode.run(d4, cfg) })
+				debug.SetGCPercent(oldGC)
+			})
 			if p1 == "HANG" || p4 == "HANG" {
 				aborted = true // the decode is still running: nothing measured after this would be meaningful
 			}
